@@ -124,7 +124,10 @@ def render_imports(imps, layout, rng):
 
 def uses_name(text, name):
     """a selector on `name` outside the import declarations"""
-    code = re.sub(r"(?s)import \(.*?\)\n", "", text)
+    # comments and string literals cannot refer to a package (the printer may lay an import declaration out
+    # over several lines with its comments in between, so the declarations are not removed by shape alone)
+    code = re.sub(r'(?s)/\*.*?\*/|//[^\n]*|"(?:\\.|[^"\\\n])*"|`[^`]*`', " ", text)
+    code = re.sub(r"(?s)import \(.*?\)\n", "", code)
     code = re.sub(r"(?m)^import .*$", "", code)
     return re.search(r"(?<![\w.])%s\.\w" % re.escape(name), code) is not None
 
